@@ -62,6 +62,7 @@ func (srv *Server) ListenAndServe() error {
 		return errors.New("no listeners found")
 	}
 
+	srvCtx := ctx // cancelled only by Close, unlike the group's context
 	eg, ctx := errgroup.WithContext(ctx)
 
 	for _, l := range srv.listeners {
@@ -83,7 +84,9 @@ func (srv *Server) ListenAndServe() error {
 
 	err := eg.Wait()
 
-	if errors.Is(err, ctx.Err()) {
+	if errors.Is(err, ctx.Err()) || srvCtx.Err() != nil {
+		// after Close whichever goroutine noticed first decides the group's error
+		// (a listener reports 'closed' rather than the context error)
 		return ErrServerClosed
 	}
 	return err
@@ -97,6 +100,8 @@ func acceptTransports(ctx context.Context, listener TransportListener, c chan<- 
 		}
 		select {
 		case <-ctx.Done():
+			// nobody will serve it anymore
+			_ = transport.Close()
 			return ctx.Err()
 		case c <- transport:
 		}
@@ -186,8 +191,17 @@ func (srv *Server) Close() error {
 		}
 	}
 
-	close(srv.transportChan)
-	return multierr.Combine(errs...)
+	// The queue must not be closed: the accepting and the consuming goroutines may
+	// still be selecting on it (a receive would yield a nil transport, a send would
+	// panic). Release the transports that nobody is going to serve instead.
+	for {
+		select {
+		case t := <-srv.transportChan:
+			_ = t.Close()
+		default:
+			return multierr.Combine(errs...)
+		}
+	}
 }
 
 // ServerConfig define the configurations for a Server instance.
